@@ -452,14 +452,40 @@ def rule_relax_agree(crate, prop, tier):
                 if const_is(t, 1) and fx.holds(bb, lambda rel: rel.has(("true", ev["res"]))):
                     flags.add(st["place"]["local"])
             o.check(bool(flags), WHO, "R3-sets-flag", "the result of a relaxation is not recorded in the `changed` flag", ev["span"])
+        # a flag raised in an (inlined) helper travels on: `updated |= result`, `result = updated`
+        grew = True
+        while grew:
+            grew = False
+            for (bb, ii), t in an.stmt_terms.items():
+                st = an.blocks[bb]["stmts"][ii]
+                L_ = st["place"]["local"]
+                if st["place"]["proj"] or L_ in flags or an.locals[L_]["ty"]["k"] != "bool":
+                    continue
+                srcs = [t[2], t[3]] if (t[0] == "bin" and t[1] == "BitOr") else [t]
+                for x in srcs:
+                    ok_ = False
+                    if x[0] == "phi" and len(x) == 3 and x[2].startswith("v"):
+                        ok_ = int(x[2][1:]) in flags
+                    if ok_:
+                        flags.add(L_)
+                        grew = True
+                        break
         flagvars = flags if flagvars is None else (flagvars & flags)
     if flagvars:
-        fl = sorted(flagvars)[0]
+        cands_ = sorted(flagvars)
+        fl = cands_[0]
+        for c_ in cands_:
+            t_ = any(ev["k"] == "switch" and ((ev["discr"][0] == "phi" and ev["discr"][2] == "v%d" % c_) or
+                                              (ev["discr"][0] == "un" and ev["discr"][2][0] == "phi" and ev["discr"][2][2] == "v%d" % c_))
+                     for ev in an.events)
+            if t_:
+                fl = c_
+        # the flag that is reset may be an earlier link of the chain (updated) than the one that is tested (the helper's result)
         tested = any(ev["k"] == "switch" and _mentions(ev["discr"], ("phi", ev["discr"][1], "v%d" % fl) if ev["discr"][0] == "phi" else ())
                      or (ev["k"] == "switch" and ev["discr"][0] == "phi" and ev["discr"][2] == "v%d" % fl)
                      or (ev["k"] == "switch" and ev["discr"][0] == "un" and ev["discr"][2][0] == "phi" and ev["discr"][2][2] == "v%d" % fl)
                      for ev in an.events)
-        reset = any(const_is(t, 0) and an.blocks[bb]["stmts"][ii]["place"]["local"] == fl and not an.blocks[bb]["stmts"][ii]["place"]["proj"]
+        reset = any(const_is(t, 0) and an.blocks[bb]["stmts"][ii]["place"]["local"] in flagvars and not an.blocks[bb]["stmts"][ii]["place"]["proj"]
                     for (bb, ii), t in an.stmt_terms.items())
         o.check(tested, WHO, "R3-flag-tested", "the `changed` flag is never tested")
         o.check(reset, WHO, "R3-flag-reset", "the `changed` flag is not reset at the start of a round")
